@@ -188,6 +188,8 @@ def c17(res: CheckResult) -> None:
              list(DF.fam_inv_lists(res.tier, rng)), ic, rng=rng)
     def_unit(res, "inheritance DAGs x contract placements: every earlier class re-projected after each step",
              list(DF.fam_hier(res.tier, rng)), ic, rng=rng)
+    def_unit(res, "post-hoc decoration of a member of an already created class (K.f = require(..)(K.f))",
+             list(DF.fam_posthoc(res.tier, rng)), ic, rng=rng)
     def_unit(res, "every placement of {absent, bare, pre, post} on every class of every shape (exhaustive)",
              list(DF.fam_hier_small(res.tier, rng)), ic, rng=rng)
 
